@@ -20,6 +20,8 @@ static void s_create_big(void) { mzd_t *A; LIB(A = mzd_init(1100, 1100); mzd_fre
 static void s_copy_big(void) { mzd_t *A = rnd(1030, 1100); LIB(mzd_copy(NULL, A)); }
 static void s_window(void) { mzd_t *A = mzd_init(70, 130), *W; LIB(W = mzd_init_window(A, 1, 64, 60, 130); mzd_free(W)); }
 static void s_many_headers(void) { mzd_t *A = mzd_init(4, 64); mzd_t *W[70]; LIB(for (int i = 0; i < 70; i++) W[i] = mzd_init_window(A, 0, 0, 4, 64)); (void)W; }
+/* more live headers than all header blocks hold (16 blocks of 64): the headers beyond are allocated one by one */
+static void s_beyond_header_blocks(void) { mzd_t *A = mzd_init(4, 64); static mzd_t *W[1100]; LIB(for (int i = 0; i < 1100; i++) W[i] = mzd_init_window(A, 0, 0, 4, 64)); (void)W; }
 static void s_mul_naive(void) { mzd_t *A = rnd(40, 50), *B = rnd(50, 30); LIB(mzd_mul_naive(NULL, A, B)); }
 static void s_mul_naive_wide(void) { mzd_t *A = rnd(40, 50), *B = rnd(50, 130); LIB(mzd_mul_naive(NULL, A, B)); }
 static void s_mul_m4rm(void) { mzd_t *A = rnd(70, 130), *B = rnd(130, 100); LIB(mzd_mul_m4rm(NULL, A, B, 0)); }
@@ -68,7 +70,7 @@ static void s_codes(void) { LIB(m4ri_destroy_all_codes(); m4ri_build_all_codes()
 
 typedef struct { const char *name; void (*fn)(void); } scn_t;
 static const scn_t SCN[] = {
-  {"create", s_create}, {"create_big", s_create_big}, {"copy_big", s_copy_big}, {"window", s_window}, {"many_headers", s_many_headers}, {"mul_naive", s_mul_naive}, {"mul_naive_wide", s_mul_naive_wide},
+  {"create", s_create}, {"create_big", s_create_big}, {"copy_big", s_copy_big}, {"window", s_window}, {"many_headers", s_many_headers}, {"beyond_header_blocks", s_beyond_header_blocks}, {"mul_naive", s_mul_naive}, {"mul_naive_wide", s_mul_naive_wide},
   {"mul_m4rm", s_mul_m4rm}, {"addmul_m4rm", s_addmul_m4rm}, {"mul_strassen", s_mul_strassen}, {"addmul_strassen", s_addmul_strassen}, {"sqr", s_sqr},
   {"mul_windows", s_mul_windows},
 #if __M4RI_HAVE_OPENMP
